@@ -393,7 +393,7 @@ def parse_impl(out):
             cur["r"].append((unhex(p[1]), unhex(p[2])))
         elif p[0] in ("compile", "load", "rload", "rl"):
             cur["flags"][p[0]] = int(p[1])
-        elif p[0] in ("size", "meta", "walk", "qp"):
+        elif p[0] in ("size", "meta", "walk", "qp", "sizes", "layout", "tmaps"):
             cur["flags"][p[0]] = tuple(int(x) for x in p[1:])
         elif p[0] == "corrupt":
             cur["flags"]["corrupt"] = " ".join(p[1:])
@@ -418,6 +418,8 @@ def parse_model(out):
             cur["e"].append((ids(p[1]), ids(p[2]), unhex(p[3]), p[4]))
         elif p[0] == "r":
             cur["r"].append((unhex(p[1]), unhex(p[2])))
+        elif p[0] in ("sizes", "layout"):
+            cur[p[0]] = tuple(int(x) for x in p[1:])
         elif p[0] in ("unsupported", "bad-op"):
             cur["unsupported"] = line
     return res
@@ -476,7 +478,16 @@ class Runner:
         single = False
         while todo:
             batch = todo[:1] if single else todo
-            rc, out = vlib.sh([exe, d] + batch, env=vlib.SAN_ENV, timeout=3600)
+            for attempt in range(4):
+                rc, out = vlib.sh([exe, d] + batch, env=vlib.SAN_ENV, timeout=3600)
+                if rc == 127 or "error while loading shared libraries" in out:
+                    # librime.so is being re-linked by a concurrent build of the working tree: wait for that build (lock), retry
+                    vlib.build_librime(flavour)
+                    time.sleep(1 + attempt)
+                    continue
+                break
+            else:
+                raise vlib.BuildError("harness cannot be started: " + out[-500:])
             self.harness_runs += 1
             got = parse_impl(out)
             progressed = False
@@ -531,8 +542,10 @@ def monitor(case, im, tsize):
         m = re.search(r"SUMMARY: .*", log)
         fr = re.findall(r"#\d+ 0x[0-9a-f]+ in (\S+) (\S+)", log)
         where = "; ".join("%s %s" % (a, os.path.basename(b)) for a, b in fr[:4])
-        return [("crash", "DictCompiler::Compile / Table::Load kills the process (rc=%s): %s [%s]" %
-                 (im["crash"][0], m.group(0) if m else log[-300:], where))], info
+        rc = im["crash"][0]
+        sig = " = killed by signal %d%s" % (-rc, " (SIGSEGV)" if rc == -11 else "") if isinstance(rc, int) and rc < 0 else ""
+        return [("crash", "DictCompiler::Compile / Table::Load kills the process (rc=%s%s): %s [%s]" %
+                 (rc, sig, m.group(0) if m else log[-300:].strip(), where))], info
     fl = im["flags"]
     if not fl.get("load"):
         bad.append(("load-fails", "Table::Load of the compiled table fails (DictCompiler::Compile returned %s)" % bool(fl.get("compile"))))
@@ -612,6 +625,20 @@ def monitor(case, im, tsize):
     return bad, info
 
 
+def correspond_capacity(im, mo, tsize):
+    """plain build only: the file is created with exactly the model's estimated_file_size, and re-mapped (grown) only for the
+    string table image, to max(needed, 2*capacity)"""
+    tm = im["flags"].get("tmaps")
+    if tm is None or mo is None or not mo.get("layout") or "crash" in im or not im["flags"].get("load"):
+        return []
+    end, bound, est = mo["layout"]
+    want = [est] + ([max(tsize, 2 * est)] if tsize > est else [])
+    if list(tm) != want:
+        return [("capacity", "read-write mappings of the table file %s, model (estimated_file_size, growth for the string table) %s"
+                 % (list(tm), want))]
+    return []
+
+
 def correspond(case, im, mo):
     """model vs implementation, list by list -> list of (clause, detail)"""
     if mo is None or not mo["done"]:
@@ -641,6 +668,11 @@ def correspond(case, im, mo):
                 bad.append(("model-order", "model list %s not weight-sorted" % (idx,)))
         if not same:
             bad.append(("list", "list at index code %s: impl %s model %s" % (idx, x[:3], y[:3])))
+    if "sizes" in im["flags"] and im["flags"]["sizes"] != mo.get("sizes"):
+        bad.append(("record-sizes", "sizeof/alignof of the table records: headers %s, layout model %s" % (im["flags"]["sizes"], mo.get("sizes"))))
+    if "layout" in im["flags"] and mo.get("layout") and im["flags"]["layout"][0] != mo["layout"][0]:
+        bad.append(("index-end", "the index ends at byte %d of the table file, the model's allocation sequence at %d" %
+                    (im["flags"]["layout"][0], mo["layout"][0])))
     if im["flags"].get("rload") and sorted(im["r"]) != sorted(mo["r"]):
         bad.append(("reverse", "reverse tables differ: impl %d keys, model %d" % (len(im["r"]), len(mo["r"]))))
     return bad
@@ -790,7 +822,7 @@ def run(c):
     cases = corpus_cases() + plan(c)
     stats = {"cases": 0, "rows": 0, "entries_compared": 0, "grew": 0, "by_profile": {}, "long_codes": 0, "homophone_lists": 0,
              "reverse_keys": 0, "imports": 0, "sort_original": 0, "impl_failures": 0, "model_impl_disagreements": 0,
-             "crashes": 0, "plain_flavour_cases": 0, "max_rows": 0, "max_syllables": 0, "unsupported_by_model": 0, "shrink_evals": 0,
+             "crashes": 0, "plain_flavour_cases": 0, "capacity_checks": 0, "max_rows": 0, "max_syllables": 0, "unsupported_by_model": 0, "shrink_evals": 0,
              "columns_layouts": {}, "decompiler_walks": 0, "query_phrases_calls": 0}
     nontrivial = set()
     samples = []
@@ -806,9 +838,11 @@ def run(c):
             cur, cur_rows = [], 0
     if cur:
         batches.append(cur)
+    models = {}
     for batch in batches:
         im, sizes = run_.impl(batch)
         mo = run_.model(batch)
+        models.update(mo)
         for case in batch:
             n = case["name"]
             bad, info = monitor(case, im[n], sizes[n])
@@ -859,6 +893,12 @@ def run(c):
                 stats["impl_failures"] += 1
                 info["flavour"] = "plain"
                 failing.append((case, bad, info))
+            else:
+                kbad = correspond_capacity(im[case["name"]], models.get(case["name"]), sizes[case["name"]])
+                stats["capacity_checks"] += 1 if "tmaps" in im[case["name"]]["flags"] else 0
+                if kbad:
+                    stats["model_impl_disagreements"] += 1
+                    disagreeing.append((case, kbad, info))
     # verdicts: O first; per signature the smallest failing source is the one reported
     failing.sort(key=lambda t: (t[2]["rows"], sum(len(f["body"]) for f in t[0]["files"])))
     seen_sig = set()
